@@ -144,6 +144,10 @@ func (c13) Gen(r *sim.Rand, tier string, run uint64) *sim.Scenario {
 			if e > 0xFFFFFF {
 				e = 0xFFFFFF
 			}
+			if s > 0x20 && r.Chance(1, 15) {
+				// a range without any address: empty (end = start-1) or inverted
+				e = s - int64(sim.PickInt(r, 1, 1, 2, 8, 15, 16, 17, 32))
+			}
 			ops = append(ops, sim.Op{K: "dump", N: []int64{s, e}})
 		}
 	}
@@ -154,6 +158,10 @@ func (c13) Gen(r *sim.Rand, tier string, run uint64) *sim.Scenario {
 		sc.Cfg["realmem"] = 3
 	} // how many of the devices are the library's own memory.RAM / memory.ROM
 	sc.Cfg["region"] = region
+	if r.Chance(1, 4) {
+		// the last device re-enters the bus on every access (reads one byte somewhere else)
+		sc.Cfg["reenter"] = region + int64(r.Intn(0x10000))
+	}
 	return sc
 }
 
@@ -197,6 +205,29 @@ func (c13) Exec(sc *sim.Scenario, env *sim.Env) *sim.Violation {
 		devs[i] = NewSimMem(env, i, sim.Mix(sc.Seed^uint64(i+1)))
 		// e.g. a small register block mirrored over a larger window reports its own size
 		devs[i].SizeV = []uint32{0, 16, 0x100, 0x10000, 1}[sim.Mix(sc.Seed^uint64(i)*77)%5]
+	}
+	if probe := uint32(sc.C("reenter")) & 0xFFFFFF; probe != 0 && ndev > 0 {
+		// the last device's accesses have a side effect that goes back to the same bus: one
+		// read elsewhere (which may hit another device, the device itself, or a hole). The
+		// nested access is not the harness's subject: it is neither logged nor checked.
+		nested := false
+		d := devs[ndev-1]
+		d.Reenter = func(uint32) {
+			if nested {
+				return
+			}
+			nested = true
+			saved := make([]bool, len(devs))
+			for k, x := range devs {
+				saved[k], x.NoLog = x.NoLog, true
+			}
+			sim.RecoverLib(func() { _ = b.EaRead(probe) })
+			for k, x := range devs {
+				x.NoLog = saved[k]
+			}
+			nested = false
+			st.Probe("device_reentered_the_bus")
+		}
 	}
 	nreal := int(sc.C("realmem"))
 	for i := 0; i < nreal && i < ndev; i++ {
@@ -535,10 +566,15 @@ func (c13) Exec(sc *sim.Scenario, env *sim.Env) *sim.Violation {
 				continue
 			}
 			s, e := uint32(op.Arg(0))&0xFFFFFF, uint32(op.Arg(1))&0xFFFFFF
-			if e < s || e-s > 4096 {
+			if e >= s && e-s > 4096 {
 				continue
 			}
 			count := int(e-s) + 1
+			if e < s {
+				count = 0 // the range holds no address
+				st.Probe("dump_empty_range")
+				nontrivial = true
+			}
 			const guard = 8
 			buf := make([]byte, count+guard)
 			for j := range buf {
